@@ -17,8 +17,9 @@ def translate(repo):
     shutil.rmtree(out, ignore_errors=True)
     rc, o = sh("%s %s %s %s" % (os.path.join(ROOT, "work/bin/extract"), repo, out, os.path.join(ROOT, "work/vtm.json")))
     f = json.load(open(os.path.join(ROOT, "work/vtm.json")))
-    unsup = [r for r in f["visitor_gen"] if r[1].startswith("unsupported")]
-    shutil.copyfile(os.path.join(out, "Visitor.lean"), os.path.join(ROOT, "lean/RulesModel/Generated/Visitor.lean"))
+    unsup = {"visitor": [r for r in f["visitor_gen"] if r[1].startswith("unsupported")], "ops": [r for r in f["ops_gen"] if r[1].startswith("unsupported")]}
+    for n in ("Visitor.lean", "Ops.lean"):
+        shutil.copyfile(os.path.join(out, n), os.path.join(ROOT, "lean/RulesModel/Generated", n))
     return unsup
 
 def main():
@@ -30,7 +31,11 @@ def main():
         for d in dirs:
             for name in sorted(os.listdir(os.path.join(ROOT, d))):
                 patch = os.path.join(ROOT, d, name, "patch.diff")
-                if not os.path.exists(patch) or "jsonquery_visitor_impl.go" not in open(patch).read():
+                if not os.path.exists(patch):
+                    continue
+                ptxt = open(patch).read()
+                parts = [p for p, pat in (("visitor", "jsonquery_visitor_impl.go"), ("ops", "operation.go")) if pat in ptxt]
+                if not parts:
                     continue
                 sh("git checkout -q -- . && git clean -fdq", cwd=WT)
                 rc, o = sh("git apply %s" % patch, cwd=WT)
@@ -38,16 +43,19 @@ def main():
                     rows[name] = "patch does not apply"
                     continue
                 unsup = translate(WT)
-                if unsup:
-                    rows[name] = "untranslatable: " + unsup[0][0] + ": " + unsup[0][1][13:80]
-                else:
-                    rc, o = sh("lake build RulesModel.Proofs.VisitorGen", cwd=os.path.join(ROOT, "lean"))
-                    rows[name] = "proved" if rc == 0 else "proof fails"
+                res = []
+                for part in parts:
+                    if unsup[part]:
+                        res.append(part + " untranslatable: " + unsup[part][0][0] + ": " + unsup[part][0][1][13:70])
+                    else:
+                        rc, o = sh("lake build RulesModel.Proofs.%s" % ("VisitorGen" if part == "visitor" else "OpsGen"), cwd=os.path.join(ROOT, "lean"))
+                        res.append(part + (" proved" if rc == 0 else " proof fails"))
+                rows[name] = "; ".join(res)
                 print(name, rows[name], flush=True)
     finally:
         sh("git -C /repo worktree remove --force %s" % WT)
         translate("/repo")
-        sh("lake build RulesModel.Proofs.VisitorGen", cwd=os.path.join(ROOT, "lean"))
+        sh("lake build RulesModel.Proofs.VisitorGen RulesModel.Proofs.OpsGen", cwd=os.path.join(ROOT, "lean"))
     json.dump(rows, open(os.path.join(ROOT, "work", "visitor_tie_matrix.json"), "w"), indent=1)
 
 main()
